@@ -164,7 +164,13 @@ class FaultyFile:
             w.event("line-fault", self._res, n)
             w.fired(f)
             if f["kind"] == "line-abort":
+                if n % 2:
+                    raise SimAbort()          # (no arguments at all)
                 raise SimAbort("simulated interruption while reading")
+            if f["kind"] == "line-eintr":
+                # a transient failure of one read call
+                raise OSError(errno.EINTR, "simulated interrupted read",
+                              "res%d" % self._res)
             raise OSError(errno.EIO, "simulated I/O error on read",
                           "res%d" % self._res)
 
